@@ -2,7 +2,7 @@
 // broker of internal/connfake.  One case = operation A answered by a well-formed response frame with chosen error
 // codes in its error fields, followed by operation B on the same Conn.  Output per case:
 //
-//	c11 <topic> <A>:<ver>:<offset>:<hwm> <bodyA hex> <B>:<ver>:<offset>:<hwm> <bodyB hex>\t<resA> <unread> <resB> <same|diff|->
+//	c11 <topic> <A>:<ver>:<offset>:<hwm> <bodyA hex> <B>:<ver>:<offset>:<hwm> <bodyB hex>\t<resA> <unread> <resB> <same|diff>
 //
 // resX = ok | kafka:<code> | fail | fail:noprogress; unread = bytes left in the Conn's read buffer after A
 // (verif hook; "-" when A failed); same/diff = B's full result compared with B run alone on a fresh Conn.
@@ -49,10 +49,11 @@ func build(r *rand.Rand, op *connfake.Op, v int16, errs []int16, withRecords boo
 				magic = 1
 			}
 			n := 1 + r.Intn(5)
-			set, msgs, err := connfake.RecordSet(r, magic, sh.Offset, n, 1+r.Intn(2), protocol.Attributes(0))
+			set, msgs, base, err := connfake.RecordSet(r, magic, sh.Offset, n, 1+r.Intn(2), protocol.Attributes(0))
 			if err != nil {
 				panic(err)
 			}
+			sh.Offset = base
 			sh.Set, sh.Want, sh.HWM = set, msgs, sh.Offset+int64(n)
 		} else if (len(errs) > 0 && r.Intn(2) == 0) || r.Intn(8) == 0 {
 			// error responses carry an empty set whatever the watermark is; without an error code an empty set
@@ -100,8 +101,8 @@ func scenario(a, b *inst) (line string, slow bool) {
 			unread = fmt.Sprint(kafka.VerifConnBuffered(c))
 		}
 		resB, digB := runOp(c, b)
-		same := "-"
-		if resB == "ok" || resB[0] == 'k' {
+		same := "diff"
+		{
 			c2, br2 := connfake.Start(topic, connfake.VersionTable(sel))
 			c2.SetDeadline(time.Now().Add(10 * time.Second))
 			br2.Push(b.op.Key, connfake.Resp{Body: b.body, Cut: -1})
@@ -110,8 +111,6 @@ func scenario(a, b *inst) (line string, slow bool) {
 			br2.Stop()
 			if resF == resB && digF == digB {
 				same = "same"
-			} else {
-				same = "diff"
 			}
 		}
 		done <- fmt.Sprintf("%s %s %s %s", resA, unread, resB, same)
@@ -120,7 +119,7 @@ func scenario(a, b *inst) (line string, slow bool) {
 	select {
 	case impl = <-done:
 	case <-time.After(30 * time.Second):
-		impl = "hang - hang -"
+		impl = "hang - hang diff"
 	}
 	return fmt.Sprintf("c11 %s %s %s\t%s", gen.Hex([]byte(topic)), a, b, impl), time.Since(t0) > 3*time.Second
 }
